@@ -201,6 +201,11 @@ func (queue *FileQueue) scanFile(filePath string, offset int64) (int64, error) {
 		if err == io.EOF {
 			return queue.Offset, ErrEOF
 		}
+		// the process was killed when it was writing the last record. The record was not acknowledged, drop it
+		if err == ErrRecordBroken {
+			log.Errorf("drop the broken record at the end of %s. offset: %d", filePath, queue.Offset)
+			return queue.Offset, ErrEOF
+		}
 
 		if err != nil {
 			return -1, err
